@@ -115,3 +115,22 @@ prop("C14", "c14",
            "malformed references, observed behaviourally through the trace of executed probe mechanisms on the assembled service.",
      note="Trusted: probe mechanisms trace exactly when executed.",
      technique="exhaustive enumeration + property-based testing against a reference computation of the effective pipeline")
+
+prop("C04", "c04",
+     "Chains of 1-4 real authenticators (anonymous, unauthorized, basic_auth, jwt, oauth2_introspection, generic) with "
+     "allow_fallback_on_error in the prototype and/or as rule-level override, against local JWKS, introspection and identity "
+     "servers; requests carry one of 15 classes of Authorization header (none; Basic valid / wrong password / wrong user / "
+     "broken base64 / no colon; Bearer opaque valid / inactive / remote failure / garbage; Bearer JWT valid / bad signature "
+     "/ expired / wrong issuer / signed by another key), a session header (none / valid / rejected / remote failure) and a "
+     "JWKS endpoint that works or fails. Oracle: each credential is classified by construction per authenticator "
+     "(no usable credentials / rejected / remote failure / valid(subject)); the reference walks the chain: first valid gives "
+     "the subject, 'no usable credentials' continues, anything else continues only with opt-in. Compared with the subject id "
+     "echoed by a header finalizer / the failure status of the decision service. Non-trivial: chain length >= 2 and the "
+     "first authenticator does not succeed; distinct by (types, flags, credential classes).",
+     [dict(run="^TestFallbackOnlyOnMissingCredentialsOrOptIn$", quick=1500, thorough=12000, shards_thorough=10)],
+     ["a bearer token that is not in JWT format is 'no usable credential' for the jwt authenticator (documented)",
+      "a rejecting identity endpoint (401) surfaces as communication error for the generic authenticator: no fallback without opt-in either way"],
+     level="Randomised generated search over authenticator chains x credential classes on the assembled decision service "
+           "with real authenticators and scripted remote endpoints; bounded exploration.",
+     note="Trusted: the harness' own token minting (stdlib crypto) and the scripted endpoints.",
+     technique="property-based testing: reference walk over credential classes known by construction")
